@@ -80,12 +80,19 @@ func relOps(e ast.Expr, negated bool, out *[]foundOp) {
 		a, b := mentions(x.X), mentions(x.Y)
 		pureL := func(s sideInfo) bool { return s.l && !s.r }
 		pureR := func(s sideInfo) bool { return s.r && !s.l }
+		opStr := x.Op.String()
+		if negated {
+			// !(a == b) is a != b, !(a < b) is a >= b, ...
+			if n, ok := map[token.Token]token.Token{token.EQL: token.NEQ, token.NEQ: token.EQL, token.LSS: token.GEQ, token.GEQ: token.LSS, token.GTR: token.LEQ, token.LEQ: token.GTR}[x.Op]; ok {
+				opStr = n.String()
+			}
+		}
 		if pureL(a) && pureR(b) {
-			*out = append(*out, foundOp{x.Op.String(), "LR", x.Pos()})
+			*out = append(*out, foundOp{opStr, "LR", x.Pos()})
 			return
 		}
 		if pureR(a) && pureL(b) {
-			*out = append(*out, foundOp{x.Op.String(), "RL", x.Pos()})
+			*out = append(*out, foundOp{opStr, "RL", x.Pos()})
 			return
 		}
 		relOps(x.X, negated, out)
